@@ -1,4 +1,5 @@
 """Anchored analysis helpers shared by the property modules."""
+import os
 import re
 
 import nf
@@ -47,6 +48,67 @@ class NoInline(terms.Policy):
     pass
 
 
+_AX = None
+
+
+def _axioms(d):
+    """facts about the atoms that hold in every well-formed instantiation (each with the reason it may be assumed)"""
+    global _AX
+    if _AX is None:
+        Kc, B = ("cg", "K"), ("BITS",)
+        one = {(): -1}
+        _AX = [
+            (nf.pkey({(Kc,): 1, (): -1}), "Ge"),      # K >= 1: Kmer::_ASSERT_K_NONZERO (compile-time assertion in the k-mer type)
+            (nf.pkey({(B,): 1, (): -1}), "Ge"),       # BITS >= 1: every codec has at least one symbol bit (C05/C17 width rows)
+        ]
+        # K * BITS <= S::BITS: Kmer::_ASSERT_K (compile-time assertion), for the generic storage and the three concrete ones
+        kb = (B, Kc) if repr(B) < repr(Kc) else (Kc, B)
+        for sb in (("ac", "<S as kmer::sealed::KmerStorage>::BITS", ("S",)),):
+            for atom in (sb, ("cast", "IntToInt", sb, "u32", "usize")):
+                _AX.append((nf.pkey({(atom,): 1, kb: -1}), "Ge"))
+        for w in (64, 128):
+            _AX.append((nf.pkey({(): w, kb: -1}), "Ge"))
+    ax = list(_AX)
+    # 1 << m >= 1
+    for m in d:
+        for a in m:
+            if isinstance(a, tuple) and a[0] == "bin" and a[1] == "Shl" and a[2][:2] == ("int", 1):
+                ax.append((nf.pkey({(a,): 1, (): -1}), "Ge"))
+    return ax
+
+
+UNDERFLOWS = []
+ASSERTS = []
+ASSERT_FILE = os.path.join(os.path.dirname(os.path.dirname(os.path.abspath(__file__))), "oracle", "asserts.json")
+
+
+def _tup(x):
+    return tuple(_tup(y) for y in x) if isinstance(x, list) else x
+
+
+def frozen_asserts():
+    import json
+    try:
+        with open(ASSERT_FILE) as fh:
+            d = json.load(fh)
+    except OSError:
+        return None
+    return {fn: [(_tup(k), op) for k, op in v] for fn, v in d.items()}
+
+
+def assert_accepted(fz, fn, k, op):
+    """an asserted precondition is accepted if it is frozen for this function, or follows from a frozen one (it is weaker)"""
+    have = fz.get(fn, [])
+    if (k, op) in have:
+        return True
+    d = dict(k)
+    if op == "Ge":
+        return nf.entails(have, d)
+    if op == "Lt":
+        return nf.entails(have, nf.padd({m: -c for m, c in d.items()}, {(): 1}, -1))
+    return False
+
+
 class NPath:
     def __init__(self, p, N):
         self.raw = p
@@ -57,10 +119,9 @@ class NPath:
         self.feasible = True
         for g in p.guards:
             x = nf.guard_nf(N, g)
-            if x[0] == "cmp" and not x[1]:
-                # constant comparison 0 op 0
-                truth = {"Eq": True, "Le": True, "Ge": True, "Ne": False, "Lt": False, "Gt": False}[x[2]]
-                if not truth:
+            if x[0] == "cmp" and nf.const_truth(x[1], x[2]) is not None:
+                # constant comparison
+                if not nf.const_truth(x[1], x[2]):
                     self.feasible = False
                 continue
             if x[0] == "cmp" and ("cmp", x[1], nf.NEG[x[2]]) in self.guards:
@@ -75,6 +136,18 @@ class NPath:
         self.stores = [(N(lv), nf.canon(N(v)) if _intlike(N(v)) else N(v)) for lv, v in p.stores]
         self.loops = p.loops
         self.loop_header = getattr(p, "loop_header", None)
+        # unsigned subtractions whose operands are not ordered by the conditions of this path (x - y with x >= y not entailed):
+        # the subtraction panics under overflow checks and wraps without them
+        self.underflow = []
+        if self.end != "panic":
+            gs = [(g[1], g[2]) for g in self.guards if g[0] == "cmp"]
+            for x, y, ty, line in getattr(p, "subs", []):
+                try:
+                    d = nf.padd(nf.poly(N(x)), nf.poly(N(y)), -1)
+                except Exception:
+                    continue
+                if not nf.entails(gs, d, _axioms(d)):
+                    self.underflow.append((show(N(x))[:80] + " - " + show(N(y))[:80], line))
 
     def cmps(self):
         return [(g[1], g[2]) for g in self.guards if g[0] == "cmp"]
@@ -104,6 +177,12 @@ def analyse(cfg, body, policy=None, args=(), eng=None):
     an = terms.Analysis(eng, policy or SeqPolicy())
     raw = an.run(body, list(args))
     out = [NPath(p, nf.Norm(env=getattr(p, "env", None), envs=getattr(p, "envs", None))) for p in raw]
+    for p in out:
+        p.body = body["path"]
+        p.body_span = body.get("span")
+        if p.feasible:
+            for desc, line in p.underflow:
+                UNDERFLOWS.append((eng is not None and eng is not cfg.eng and "derive" or "", body["path"], desc, line, body.get("span")))
     return [p for p in out if p.feasible], nf.Norm()
 
 
@@ -122,6 +201,13 @@ def strip_assert_guards(paths):
         if p.end == "panic":
             continue
         res[id(p)] = [g for g in p.guards if not (g[0] == "cmp" and (g[1], g[2]) in ag)]
+    # the stripped conditions are preconditions whose violation panics: they are compared with the frozen table of accepted
+    # preconditions (oracle/asserts.json) by bin/check - a stricter or new one changes which inputs panic
+    body = next((getattr(p, "body", None) for p in paths if getattr(p, "body", None)), None)
+    span = next((getattr(p, "body_span", None) for p in paths if getattr(p, "body", None)), None)
+    if body:
+        for k, op in ag:
+            ASSERTS.append((body, k, op, span))
     return res, ag
 
 
